@@ -151,7 +151,8 @@ def extract_model(loader_cls, mid):
             'members': [m.name for m in c] if kind == 'enum' else [],
             'rejects': [], 'hasrecog': False, 'recog': ['auto'],
             'hassav': False, 'sav': ['none'], 'hasswe': False,
-            'swe': ['none'], 'initraises': False, 'raisesif': [],
+            'swe': ['none'], 'initraises': False, 'raisesif': [], 'hasydef': False,
+            'ydefaults': [], 'strmixin': False,
             'yattrs': []})
     dt = abstype(loader_cls.document_type, names)
     model = {'id': mid, 'classes': out, 'reg': [c.__name__ for c in classes],
